@@ -208,7 +208,7 @@ def run(chk: core.Check):
     chk.assumptions += ["hash scores are small integers: float comparisons are exact",
                         "reversal of built-in scores is compared under a 1e-9 relative tolerance; changepoints only where every decision margin exceeds 1e-7"]
     rng = core.rng_for(chk.seed, "C08/hash")
-    cases = [gen_hash(rng, nmax) for _ in range(N)]
+    cases = core.Gen(gen_hash, rng, nmax, N)
     skipf = lambda c, r: r["outcome"][5:] if r["outcome"].startswith("skip:") else None  # noqa: E731
     res = chk.run_stream("mw-hash", cases, impl_hash, oracle=oracle_hash, site="MovingWindow", skip=skipf,
                          nontrivial=lambda c, r: r.get("outcome") == "ok" and len(r["cps"]) > 0)
@@ -227,7 +227,7 @@ def run(chk: core.Check):
     if ok:
         chk.samples.append({"stream": "mw-hash/model", "line": hash_line(ok[0]), "model": outs[0][:200]})
     rng = core.rng_for(chk.seed, "C08/builtin")
-    chk.run_stream("builtin", [gen_builtin(rng, nmax + 8) for _ in range(N // 3)], impl_builtin, oracle=oracle_builtin,
+    chk.run_stream("builtin", core.Gen(gen_builtin, rng, nmax + 8, N // 3), impl_builtin, oracle=oracle_builtin,
                    site="MovingWindow/builtin", nontrivial=lambda c, r: r.get("outcome") == "ok" and len(r["cps"]) > 0,
                    describe=lambda c: {k: v for k, v in c.items() if k != "X"} | {"X[:4]": c["X"][:4]})
     return chk.finish()
